@@ -1307,3 +1307,28 @@ Proof.
   eapply StronglySorted_ext_in; [|apply sorted_prefs_non_increasing].
   intros x y Hx Hy H. cbv beta in *. now rewrite !mult_of_retable.
 Qed.
+
+(* ================================================================================================ *)
+(* F. a ballot with ZERO categories (outside the quantifier, recorded because the code accepts it)  *)
+(* ================================================================================================ *)
+(* write prints "<mult>: " + newline; the reader strips it to "<mult>:", splits it into the multiplicity and
+   the empty string, and builds the empty tuple: the line is read back as well *)
+Lemma ballot_line_read_zero mu : ballot_of_line (ballot_line mu []) = Ok (mult_of mu [], []).
+Proof.
+  unfold ballot_of_line, ballot_line. set (m := mult_of mu []).
+  change (strip_chars (lit ", ") (pref_str [])) with (@nil N).
+  replace (show_N m ++ lit ": " ++ [] ++ nl) with ((show_N m ++ [58%N]) ++ [32%N; 10%N])
+    by (now rewrite <- app_assoc).
+  rewrite strip_nl_r by reflexivity.
+  assert (S : strip (show_N m ++ [58%N]) = show_N m ++ [58%N]).
+  { unfold strip. rewrite <- (app_nil_r (show_N m ++ [58%N])) at 1. apply strip_by_keep; [| |reflexivity].
+    - destruct (show_N_starts m) as [z [t1 [E H]]]. exists z, (t1 ++ [58%N]). rewrite E. split; [reflexivity|].
+      now apply good_start_not_space.
+    - exists (show_N m), 58%N. split; reflexivity. }
+  rewrite S. rewrite remove_sp_app, remove_sp_show. change (remove_sp [58%N]) with [58%N].
+  rewrite split_on_app. rewrite (split_on_none 58 (show_N m)) by (now apply show_N_lacks).
+  cbn [split_on app]. rewrite py_int_show_N. reflexivity.
+Qed.
+
+Theorem ballot_line_read_any mu b : ballot_of_line (ballot_line mu b) = Ok (mult_of mu b, b).
+Proof. destruct b as [|c b]; [apply ballot_line_read_zero|apply ballot_line_read]. Qed.
